@@ -198,6 +198,18 @@ func (fc *FuncCtx) mergeStates(ins []*State) *State {
 	}
 	out.pc = fc.u.define("pc", "Bool", tOr(pcs...))
 	out.cases = pcs
+	{
+		seen := map[string]bool{}
+		out.heldLocks = nil
+		for _, s := range live {
+			for _, h := range s.heldLocks {
+				if !seen[h] {
+					seen[h] = true
+					out.heldLocks = append(out.heldLocks, h)
+				}
+			}
+		}
+	}
 	// epoch: if they differ, materialise all keys
 	sameEpoch := true
 	for _, s := range live[1:] {
